@@ -257,6 +257,31 @@ theorem decPacked_init {S : Schema} {f : Field} (k : Kind) : ∀ (fuel : Nat) (b
       | (simp at h; done)
       | exact step _ _ h
 
+theorem initFields_appendList {S : Schema} {d : MsgD} {fs : Fields} (h : initFields S d fs = true) {f : Field}
+    (hf : d.find f.num = some f) {vs : Vals} (hv : initVals S f vs = true) :
+    initFields S d (appendList fs f.num vs) = true := by
+  rw [appendList_eq]
+  split
+  · exact h
+  · refine initFields_set h _ _ (fun g hg => ?_)
+    rw [hf] at hg; cases hg
+    rw [initFVal]
+    exact initVals_append (initVals_listAt h hf) hv
+
+theorem initFields_setSingular {S : Schema} {d : MsgD} {fs : Fields} (h : initFields S d fs = true) {f : Field}
+    {v : Val} (hv : isMsgVal v = false) : initFields S d (setSingular d f fs v) = true := by
+  unfold setSingular
+  have h0 : initFields S d (match f.oneof with
+      | some o => Fields.clearOneof d o f.num fs
+      | none => fs) = true := by
+    cases f.oneof with
+    | none => exact h
+    | some o => exact initFields_clearOneof h _ _
+  simp only
+  split
+  · exact initFields_erase h0 _
+  · exact initFields_set h0 _ _ (fun g _ => by rw [initFVal]; exact initVal_of_not_msg hv)
+
 theorem isMsgVal_defaultScalar (f : Field) : isMsgVal (defaultScalar f) = false := by
   unfold defaultScalar; split <;> rfl
 
